@@ -334,7 +334,31 @@ func (e *Engine) installExternals() {
 		t := copyVal(a[0]).(Struct)
 		return &OpaqueStr{Tag: "time:" + a[1].(string), Payload: t}
 	}
-	x["(time.Time).UnixNano"] = func(fr *frame, a []Value) Value { return a[0].(Struct)[1] }
+	x["(time.Time).UnixNano"] = func(fr *frame, a []Value) Value {
+		t := a[0].(Struct)
+		if w, ok := t[0].(uint64); ok && w == 0 {
+			if x, ok := t[1].(int64); ok && x == 0 {
+				// the zero Time is outside the int64 nanosecond range: Go returns this wrapped value
+				return int64(-6795364578871345152)
+			}
+		}
+		return t[1]
+	}
+	x["time.Unix"] = func(fr *frame, a []Value) Value {
+		i64 := types.Typ[types.Int64]
+		ns := e.binop(token.ADD, i64, e.binop(token.MUL, i64, a[0], int64(1000000000)), a[1])
+		return e.makeTime(ns, e.timeLoc("Local"))
+	}
+	x["(time.Time).Unix"] = func(fr *frame, a []Value) Value {
+		return e.binop(token.QUO, types.Typ[types.Int64], a[0].(Struct)[1], int64(1000000000))
+	}
+	x["(time.Time).Location"] = func(fr *frame, a []Value) Value {
+		l := a[0].(Struct)[2].(*Value)
+		if l == nil {
+			return e.timeLoc("UTC")
+		}
+		return l
+	}
 	x["time.Parse"] = func(fr *frame, a []Value) Value {
 		layout := a[0].(string)
 		if o, ok := a[1].(*OpaqueStr); ok && o.Tag == "time:"+layout {
@@ -502,6 +526,9 @@ func (e *Engine) newInputInt(tag string, lo, hi int64) Value {
 }
 
 func (e *Engine) newInputIntK(kind, tag string, lo, hi int64) Value {
+	if e.concrete {
+		return e.concreteInt(kind, tag, lo, hi)
+	}
 	t := e.newInput(kind, tag, sortInt)
 	e.nondets[len(e.nondets)-1].Lo, e.nondets[len(e.nondets)-1].Hi = lo, hi
 	blo, bhi := big.NewInt(lo), big.NewInt(hi)
@@ -512,7 +539,7 @@ func (e *Engine) newInputIntK(kind, tag string, lo, hi int64) Value {
 
 func (e *Engine) installIntrinsics() {
 	in := e.intrinsics
-	in["vBool"] = func(fr *frame, a []Value) Value { return e.newInput("h:bool", "", sortBool) }
+	in["vBool"] = func(fr *frame, a []Value) Value { return e.simplify(e.newInput("h:bool", "", sortBool), nil) }
 	in["vInt"] = func(fr *frame, a []Value) Value {
 		lo, lok := a[0].(int64)
 		hi, hok := a[1].(int64)
@@ -549,6 +576,9 @@ func (e *Engine) installIntrinsics() {
 	in["vConcrete"] = func(fr *frame, a []Value) Value { return e.concretizeInt(a[0], "vConcrete") }
 	in["vStr"] = func(fr *frame, a []Value) Value {
 		t := e.newInput("h:str", a[0].(string), sortStr)
+		if e.concrete {
+			return t.Str
+		}
 		e.assumeTerm(e.ts.mk(sortBool, "<=", e.ts.StrLen(t), e.ts.Int(1<<20)))
 		return t
 	}
@@ -607,6 +637,25 @@ func (e *Engine) installIntrinsics() {
 			}
 		}
 		e.observes = append(e.observes, sb.String())
+		if e.concrete {
+			var ob strings.Builder
+			ob.WriteString("O:" + a[0].(string))
+			for _, v := range a[1].([]Value) {
+				ob.WriteByte(' ')
+				if itf, ok := v.(Iface); ok {
+					v = normStr(itf.V)
+				}
+				switch x := v.(type) {
+				case int64, uint64, bool:
+					fmt.Fprint(&ob, x)
+				case string:
+					ob.WriteString(x)
+				default:
+					ob.WriteString("?")
+				}
+			}
+			e.ctrace = append(e.ctrace, ob.String())
+		}
 		return nil
 	}
 	in["vYield"] = func(fr *frame, a []Value) Value { e.yield(fr.g, "vYield"); return nil }
@@ -631,11 +680,29 @@ func (e *Engine) installIntrinsics() {
 		return Tuple{int64(k), int64(cmp), lim, int64(guard)}
 	}
 	in["vRank"] = func(fr *frame, a []Value) Value {
+		if e.concrete {
+			sv, _ := normStr(a[0]).(string)
+			r := int64(len(sv)) * 1000
+			for i := 0; i < len(sv); i++ {
+				r += int64(sv[i])
+			}
+			return r
+		}
 		return e.simplify(e.ts.mk(sortInt, "vrank", e.strTerm(a[0])), nil)
 	}
 	in["vGoID"] = func(fr *frame, a []Value) Value { return int64(fr.g.id) }
-	in["vDoc"] = func(fr *frame, a []Value) Value { return e.symbolicDoc(a[0].(string), "") }
-	in["vDocWithout"] = func(fr *frame, a []Value) Value { return e.symbolicDoc(a[0].(string), a[1].(string)) }
+	in["vDoc"] = func(fr *frame, a []Value) Value {
+		if e.concrete {
+			return e.concreteDoc(a[0].(string))
+		}
+		return e.symbolicDoc(a[0].(string), "")
+	}
+	in["vDocWithout"] = func(fr *frame, a []Value) Value {
+		if e.concrete {
+			return e.concreteDoc(a[0].(string))
+		}
+		return e.symbolicDoc(a[0].(string), a[1].(string))
+	}
 	in["vTime"] = func(fr *frame, a []Value) Value {
 		ns := e.newInputIntK("h:int", "time:"+a[0].(string), 1, 1<<50)
 		var loc *Value
@@ -650,6 +717,9 @@ func (e *Engine) installIntrinsics() {
 // nameByte returns a fresh symbolic byte constrained to [a-z0-9].
 func (e *Engine) nameByte(tag string) Value {
 	b := e.newInput("h:byte", tag, sortBV(8))
+	if e.concrete {
+		return b.I.Uint64()
+	}
 	ts := e.ts
 	lower := ts.And(ts.BVUle(ts.BV('a', 8), b), ts.BVUle(b, ts.BV('z', 8)))
 	digit := ts.And(ts.BVUle(ts.BV('0', 8), b), ts.BVUle(b, ts.BV('9', 8)))
@@ -987,4 +1057,25 @@ func sqlKind(q string) (kind, cmp int, hasLimit bool, guard int) {
 		return 3, 0, false, g
 	}
 	return 0, 0, false, -1
+}
+
+var conformanceDocs = []string{
+	`{}`, `null`, `not json`, `[1,2]`, `"str"`, `7`,
+	`{"headers":{"control":"reset"}}`,
+	`{"headers":{"control":"snapshot-start","offset":"5"}}`,
+	`{"headers":{"control":"reset","offset":7}}`,
+	`{"type":"state.entA","key":"k","value":{"v":3},"headers":{"operation":"insert"}}`,
+	`{"type":"state.entA","key":"k","headers":{"operation":"delete"}}`,
+	`{"type":"state.entA","key":"k","value":"oops","headers":{"operation":"update"}}`,
+	`{"type":"other","key":"k","value":{"v":1},"headers":{"operation":"insert"}}`,
+}
+
+func (e *Engine) concreteDoc(tag string) Value {
+	d := conformanceDocs[e.rng.Intn(len(conformanceDocs))]
+	e.nondets = append(e.nondets, nondetRec{Name: fmt.Sprintf("in%d_doc", len(e.nondets)), Kind: "h:doc", Tag: tag, Const: d})
+	out := make([]Value, len(d))
+	for i := 0; i < len(d); i++ {
+		out[i] = uint64(d[i])
+	}
+	return out
 }
